@@ -227,6 +227,11 @@ def run(run, ix, tier):
 
     check_fallback_values(run, ix)
     check_exact_number_operands(run, ix)
+    # F-R15: an operand that is mp's eps keeps its value (rule X-R14 of the C38 module): evaluated at iv.prec it is
+    # another number and the predicates answer for that one
+    from . import c38
+    run.rule('F-R15', floor=4, desc='eps of the mp context as an operand keeps its value (X-R14)')
+    c38.check_contextual_constants(run, ix, rule='F-R15')
 
     # ---- complex operand of `in` (ctx.mpf(t) hands back an ivmpc for a complex t) -----------
     if not any(f.rule in ('F-R3', 'F-R4') for f in run.findings):
